@@ -253,8 +253,12 @@ def run_falsy_names(acc, P):
     import itertools
     bodies = ['@', 'rule:', 'not rule:', 'rule:n', 'rule:zz',
               'role:x or rule:', 'rule:n and rule:zz']
-    for b0, bn in itertools.product(bodies, repeat=2):
-        rules = {'': b0, 'n': bn}
+    # ... the same bodies once more with NO rule named '': `rule:` is then a
+    # reference to an undefined name like any other
+    bodies2 = bodies + ['(role:x or (role:y and not rule:))']
+    for (b0, bn), first in itertools.product(
+            itertools.product(bodies2, repeat=2), ('', 'm')):
+        rules = {first: b0, 'n': bn}
         undefined, cyc = graph_problem(rules)
         enf = world.bare_enforcer()
         world.set_rules(enf, rules)
